@@ -1,4 +1,5 @@
 //! hx_c34: row id sequences and the row id index (C34).
+mod e2e;
 mod gen;
 mod index;
 mod model;
@@ -13,6 +14,7 @@ fn c34(args: &Args) -> i32 {
     unit::run(args, &mut sink, &mut st);
     let mut ix = index::new_stream();
     index::run(args, &mut sink, &mut ix);
+    e2e::run(args, &mut sink, &mut ix);
     sink.add(st.build);
     sink.add(st.query);
     sink.add(st.segop);
